@@ -20,5 +20,5 @@ if [[ "$DEMO" == *.diff ]]; then git apply -R $DEMO; else rm tests/$(basename $D
 cargo test --offline --workspace 2>&1 | grep -E "^test result" | awk '{p+=$4; f+=$6} END {print "passed="p" failed="f}'
 cd /repo && git worktree remove --force $WT
 echo "== ./check $PROP on /repo with the change applied"
-git -C /repo apply $OUT/patch.diff && (cd /verif && ./check $PROP; echo "check exit=$?"); git -C /repo checkout -- .
+git -C /repo apply $OUT/patch.diff && (cd /verif && VERIF_SCRATCH_EVIDENCE=/tmp/verif-seed-evidence ./check $PROP; echo "check exit=$?"); git -C /repo checkout -- .
 git -C /repo status --short | head -3
